@@ -6,6 +6,7 @@ import (
 	"sort"
 	"strconv"
 	"strings"
+	"time"
 
 	"github.com/fluffle/goirc/client"
 
@@ -61,12 +62,16 @@ var c20KnownFormats = []string{
 	"Tracker.", "Channel.", "Nick.", "irc.Connect(): Cannot connect to %s, already connected.", "irc.311(): received WHOIS info for unknown nick %s", "irc.JOIN(): JOIN to unknown channel %s received ",
 }
 
-type c20Mode struct{ Neg, Track, Direct bool } // Direct: no proxy configured, internalConnect dials itself
+type c20Mode struct{ Neg, Track, Direct, FC bool } // Direct: no proxy configured, internalConnect dials itself; FC: flood protection on
 
 func (m c20Mode) String() string {
 	if m.Direct {
 		m.Direct = false
 		return m.String() + "+direct"
+	}
+	if m.FC {
+		m.FC = false
+		return m.String() + "+floodctl"
 	}
 	switch {
 	case m.Neg && m.Track:
@@ -79,7 +84,9 @@ func (m c20Mode) String() string {
 	return "plain"
 }
 
-var c20Modes = []c20Mode{{false, false, false}, {true, false, false}, {false, true, false}, {true, true, false}, {false, false, true}, {true, true, true}}
+var c20Modes = []c20Mode{{Neg: false, Track: false}, {Neg: true}, {Track: true}, {Neg: true, Track: true}, {Direct: true}, {Neg: true, Track: true, Direct: true},
+	// flood protection on: a long PASS line (or the penalty left by earlier lines) is held back by the limiter
+	{FC: true}, {Neg: true, Track: true, FC: true}}
 
 // outcomes: normal | eof0 | writeerrK (K = 1..4: the K-th socket write fails; the server sends the
 // welcome and a PING once the registration lines are out, so the writes are, in order, [CAP LS,]
@@ -219,11 +226,18 @@ func c20Scenario(pwIdx int, pw string, m c20Mode, outcome string) *explore.Scena
 		Family: "password-log",
 		Name:   fmt.Sprintf("password-log/pw=%03d/mode=%s/outcome=%s", pwIdx, m, outcome),
 		Params: map[string]interface{}{"password": Q(pw), "mode": m.String(), "outcome": outcome},
-		Opt:    vx.Options{MaxSteps: 50000},
+		Opt:    vx.Options{MaxSteps: 50000, Horizon: 3 * time.Hour},
 	}
 	sc.Main = func(env *vx.Env) {
+		settle := func() {
+			if m.FC {
+				vx.Sleep(2 * time.Minute) // quiescence alone does not wait for a line the limiter is holding back
+			}
+			vx.Quiesce()
+		}
 		c := NewClient("me", func(cfg *client.Config) {
 			cfg.Pass = pw
+			cfg.Flood = !m.FC
 			if m.Direct {
 				cfg.Proxy = ""
 			}
@@ -274,17 +288,17 @@ func c20Scenario(pwIdx int, pw string, m c20Mode, outcome string) *explore.Scena
 		case "wipe":
 			c.Config().Pass = ""
 		}
-		vx.Quiesce()
+		settle()
 		switch outcome {
 		case "user-pass", "reconnect-to", "rotate", "wipe":
 			if m.Neg {
 				vc.SendLines(c20LS)
-				vx.Quiesce()
+				settle()
 				vc.SendLines(c20ACK)
-				vx.Quiesce()
+				settle()
 			}
 			vc.SendLines(welcome)
-			vx.Quiesce()
+			settle()
 			if outcome == "user-pass" {
 				c.Pass(c20Second(pw))
 			}
@@ -293,14 +307,14 @@ func c20Scenario(pwIdx int, pw string, m c20Mode, outcome string) *explore.Scena
 				vx.Observe("ev", fmt.Sprintf("second connect refused=%v", err != nil))
 				c.Pass(pw) // the first password again, while the configuration holds the second
 			}
-			vx.Quiesce()
+			settle()
 			vc.SendLines("PING :x1")
-			vx.Quiesce()
+			settle()
 		}
 		if outcome == "normal" {
 			feed := func(l string) {
 				vc.SendLines(l)
-				vx.Quiesce()
+				settle()
 			}
 			if m.Neg {
 				feed(c20LS)
@@ -314,7 +328,7 @@ func c20Scenario(pwIdx int, pw string, m c20Mode, outcome string) *explore.Scena
 		if strings.HasPrefix(outcome, "writeerr") && !strings.HasSuffix(outcome, "b") && !vc.ClosedLocal() {
 			// gives the client something to answer, so that a 4th write happens without negotiation too
 			vc.SendLines(welcome, "PING :x1")
-			vx.Quiesce()
+			settle()
 		}
 		// non-vacuity: did the injected error hit the PASS line itself? (the registration lines are
 		// queued in one go by one handler, so they reach the socket in order)
@@ -339,7 +353,7 @@ func c20Scenario(pwIdx int, pw string, m c20Mode, outcome string) *explore.Scena
 		if !vc.ClosedLocal() {
 			vc.EOF()
 		}
-		vx.Quiesce()
+		settle()
 		vx.Observe("ev", fmt.Sprintf("end connected=%v", c.Connected()))
 	}
 	sc.Check = func(o *vx.Outcome) []explore.Finding {
@@ -469,7 +483,7 @@ func c20EnumJob(name string, idx []int, pws []string) Job {
 func init() {
 	Register(&Prop{
 		ID:   "C20",
-		Rule: "passwords = marker \"Zq7Pw\" + variant and \"x\" + marker + variant for variant ∈ {p, PASS, ' lead', 'a b', ':c', '%s%d%!', '\\', '\\x01x', 600×z} (18 designed), plus marker + every printable ASCII byte (95) and a length ladder 1..2000 (12) (thorough: + pairs of IRC/fmt/mask-significant bytes around the marker and fmt/IRC look-alikes); sessions = {plain, negotiation, tracking, both, plain without proxy, both without proxy} × outcome {normal welcome + 11 lines + EOF, EOF at once, write error on write 1..4, dial error, empty cfg.Server, TLS handshake answered in plain text / by EOF, a second password (other marker) sent with Conn.Pass after registration, ConnectTo(other host, second password) while connected followed by Conn.Pass(first), Config.Pass overwritten (second password / empty) as soon as Connect returns}; enumeration jobs run every (password, session) once under the default schedule; exploration jobs run the failing-connection sessions of the 18 designed passwords under every schedule within the deviation budgets; the capturing logger records all four levels; distinct = distinct (password, session, sequence of (level, format) records, number of masked PASS records) resp. distinct canonical observation per explored scenario",
+		Rule: "passwords = marker \"Zq7Pw\" + variant and \"x\" + marker + variant for variant ∈ {p, PASS, ' lead', 'a b', ':c', '%s%d%!', '\\', '\\x01x', 600×z} (18 designed), plus marker + every printable ASCII byte (95) and a length ladder 1..2000 (12) (thorough: + pairs of IRC/fmt/mask-significant bytes around the marker and fmt/IRC look-alikes); sessions = {plain, negotiation, tracking, both, plain without proxy, both without proxy, plain with flood protection, both with flood protection} × outcome {normal welcome + 11 lines + EOF, EOF at once, write error on write 1..4, dial error, empty cfg.Server, TLS handshake answered in plain text / by EOF, a second password (other marker) sent with Conn.Pass after registration, ConnectTo(other host, second password) while connected followed by Conn.Pass(first), Config.Pass overwritten (second password / empty) as soon as Connect returns}; enumeration jobs run every (password, session) once under the default schedule; exploration jobs run the failing-connection sessions of the 18 designed passwords under every schedule within the deviation budgets; the capturing logger records all four levels; distinct = distinct (password, session, sequence of (level, format) records, number of masked PASS records) resp. distinct canonical observation per explored scenario",
 		Assumptions: []string{
 			"the server never sends the password (recv logs every received line); asserted by the harness precondition",
 			"connections go through the in-memory network either via the registered proxy type or (modes +direct) via the Dialer shim that replaces net.Dialer in the instrumented copy; the TLS branch is executed with a handshake that fails (plain-text answer, EOF), never with one that succeeds",
